@@ -52,7 +52,7 @@ theorem join_src_den (N : Nat) (r : List (Src α)) : ∀ (l : List α) (c p : Na
         simp [join, src, srcStep, itSliceDone]
       have h1 := ih (c + 1) (p + 1) (by simp [joinRemaining] at hN ⊢; omega)
       have := Den.item (cost := joinCost N) hs h1
-      simp only [List.flatMap_nil, List.append_nil, List.cons_append, annot] at this ⊢
+      simp only [List.flatMap_nil, List.append_nil, annot] at this ⊢
       have e1 : joinCost N [⟨l, c + 1, p + 1⟩] = N - ((a :: l).length + joinRemaining ([] : List (Src α))) + 1 := by
         simp [joinCost, joinRemaining] at hN ⊢; omega
       have e2 : N - (l.length + joinRemaining ([] : List (Src α))) =
@@ -464,6 +464,7 @@ def equalL : List α → List (List α) → Bool × List (List α)
 /-- items of a source, read or unread -/
 def tot (s : Src α) : Nat := s.pulled + s.rest.length
 
+omit [DecidableEq α] in
 theorem drive_src (fuel : Nat) (s : Src α) :
     ∃ s', drive src (fuel + 1) s = (some s.rest.head?, s') ∧ s'.rest = s.rest.tail ∧ tot s' = tot s := by
   obtain ⟨rest, c, p⟩ := s
@@ -539,7 +540,7 @@ theorem equalL_all (l0 : List α) (ls : List (List α)) (h : ∀ l ∈ ls, l = l
   induction l0 generalizing ls with
   | nil =>
     rw [equalL, equalRoundL_all none ls (fun l hl => by rw [h l hl]; rfl)]
-    simp only [List.map_map, Prod.mk.injEq, List.cons.injEq, true_and]
+    simp only [Prod.mk.injEq, List.cons.injEq, true_and]
     apply List.map_congr_left
     intro l hl
     rw [h l hl]; rfl
